@@ -168,7 +168,7 @@ let () =
              (try check c "init" (obs_of_sx c.kind (List.hd (Sexp.args sx)));
                   (match c.r with
                    | Some r0 -> (match fstep r0 (HSnap (nat_of_int 0)) with
-                                 | Some r2 -> c.r <- Some { r2 with held = r0.held }
+                                 | Some r2 -> c.r <- Some { r2 with held = r0.held; held_ref = r0.held_ref }
                                  | None -> ())
                    | None -> ())
               with Has_children -> c.skipped <- Some "children")
@@ -193,13 +193,28 @@ let () =
                           c.r <- Some r';
                           (match l with
                            | HClose _ -> ()   (* only held snapshots are observed while closed; checked by the tree runner *)
+                           | _ when Sexp.head osx = "noobs" -> ()   (* blind step: nothing was read, nothing to compare *)
                            | _ ->
                                (* every observation takes a Snapshot: the model does the same *)
-                               check c (Sexp.head lsx) (obs_of_sx c.kind osx);
+                               let o = obs_of_sx c.kind osx in
+                               check c (Sexp.head lsx) o;
+                               (match l, c.kind, o.o_store with
+                                | HPBegin (PCompact O), LLStore, Some f when not (full_shape_ok f) ->
+                                    c.mism <- c.mism + 1;
+                                    Printf.printf "MISMATCH case=%d seed=%s step=%d label=pbegin kinds=spec:full-compaction-shape\n  store after full compaction=%s\n"
+                                      c.id c.seed c.steps (stack_sx f)
+                                | _ -> ());
                                (match fstep r' (HSnap (nat_of_int 0)) with
-                                | Some r2 -> c.r <- Some { r2 with held = r'.held }
+                                | Some r2 -> c.r <- Some { r2 with held = r'.held; held_ref = r'.held_ref }
                                 | None -> ()))))
               with Has_children -> c.skipped <- Some "children")
+         | _ -> ())
+    | "specviolation" ->
+        (match !cur, Sexp.args sx with
+         | Some c, Sexp.A kind :: rest when c.skipped = None ->
+             c.mism <- c.mism + 1;
+             Printf.printf "MISMATCH case=%d seed=%s step=%d label=specviolation kinds=%s\n  %s\n" c.id c.seed c.steps kind
+               (String.concat " " (List.map Sexp.to_string rest))
          | _ -> ())
     | "error" ->
         (match !cur with
